@@ -68,11 +68,13 @@ def constructs(base, start, dt):
         "exp": ["un", "exp", ["bin", "/", b, ["num", 10.0]]],
         "sqrt": ["un", "sqrt", ["un", "abs", b]],
         "round": ["round", ["bin", "*", b, ["num", 1.2345]], 1],
+        # a time threshold exactly on a grid label: well defined (>= on equal floats) as long as every evaluation route
+        # hands the equation the grid label itself
+        "if_time_on_grid": ["if", ["bin", ">=", ["time"], ["num", F(s + 2 * d)]], ["num", 2.0], ["num", 0.5]],
         "dt": ["bin", "*", b, ["dt"]],
         "starttime": ["bin", "+", b, ["starttime"]],
     }
-    # pulse only on binary grids (t==first in floats)
-    if d.denominator in (1, 2, 4, 8) and s.denominator in (1, 2, 4):
+    if True:
         c["pulse_once"] = ["pulse", ["num", 3.0], F(s + d), 0.0]
         c["pulse_rep"] = ["pulse", ["num", 3.0], F(s + d), F(2 * d)]
         c["pulse_el"] = ["pulse", b, F(s), F(d)]
@@ -314,7 +316,7 @@ def run(ctx):
                 "non-trivial = model accepted and at least one (element, time) compared with the Euler reference",
         "contexts": CONTEXTS, "channels": ["Element.__call__", "Element.plot(return_df=True)", "bptk.run_scenarios(df)"],
         "samples": samples,
-    }, assumptions=["step time placed off the grid; pulse only on binary grids; delay durations multiples of dt",
+    }, assumptions=["step time placed off the grid (the statement does not fix STEP at its own step time); delay durations multiples of dt",
                     "parameter values from fixed pools (well-conditioned trajectories)"])
 
 
